@@ -32,7 +32,7 @@ typedef struct {
   int sp;                     /* number of occupied model stack slots; rsp is implied: slot sp-1 is at (%rsp) */
   int x87;                    /* x87 register stack depth */
   int64_t st[8];              /* integer-valued x87 stack (st[x87-1] is %st(0)); valid only where st_int[] */
-  _Bool st_int[8];
+  unsigned char st_int[8];    /* 0: not integer-valued (outside the model); 1: value is st[i]; 2: value is st[i] + 2^64; 3: a NaN */
   _Bool cw_trunc;             /* x87 control word currently selects truncation */
   _Bool cw_saved;
   int skip;                   /* 0 = running; otherwise skipping to a label */
@@ -727,7 +727,7 @@ static inline void gm_exec(const GLine *L, const char *s, int n) {
       if (o1.kind != O_MEM) { m.unknown = 1; return; }
       if (!m.cw_trunc) { m.bad = 1; return; }                   /* C requires truncation: rounding mode must have been switched */
       int size = MN("fistps") ? 2 : MN("fistpl") ? 4 : 8;
-      if (m.st_int[m.x87]) {
+      if (m.st_int[m.x87] == 1) {
         int64_t v = m.st[m.x87];
         // out of range for the destination => integer indefinite
         uint64_t out = (gm_sext((uint64_t)v & gm_mask(size), size) == v) ? ((uint64_t)v & gm_mask(size)) : gm_sign(size);
@@ -748,13 +748,14 @@ static inline void gm_exec(const GLine *L, const char *s, int n) {
   }
   if (MN("fadds")) { if (m.x87 < 1 || o1.kind != O_MEM) { m.bad = 1; return; }
     // used only by u64->f80: adds the float constant 2^64 (0x5f800000) to fix up a negative fild
-    if ((uint32_t)gm_load(&o1, 4) == 0x5f800000u && m.st_int[m.x87 - 1]) { m.st_int[m.x87 - 1] = 2; /* value = st + 2^64, tracked by tag 2 */ }
+    if ((uint32_t)gm_load(&o1, 4) == 0x5f800000u && m.st_int[m.x87 - 1] == 1) { m.st_int[m.x87 - 1] = 2; /* value = st + 2^64, tracked by tag 2 */ }
     else m.st_int[m.x87 - 1] = 0;
     return; }
   if (MN("fchs")) { if (m.x87 < 1) { m.bad = 1; return; } m.st_int[m.x87 - 1] = 0; return; }
   if (MN("fcomip") || MN("fucomip")) {   /* compare %st(0) with %st(1), set ZF/PF/CF, pop */
     if (m.x87 < 2) { m.bad = 1; return; }
-    if (m.st_int[m.x87 - 1] == 1 && m.st_int[m.x87 - 2] == 1) { int64_t a = m.st[m.x87 - 1], b = m.st[m.x87 - 2]; gm_ucomi(0, a < b, a == b); }
+    if (m.st_int[m.x87 - 1] == 3 || m.st_int[m.x87 - 2] == 3) gm_ucomi(1, 0, 0);                  /* a NaN operand: unordered */
+    else if (m.st_int[m.x87 - 1] == 1 && m.st_int[m.x87 - 2] == 1) { int64_t a = m.st[m.x87 - 1], b = m.st[m.x87 - 2]; gm_ucomi(0, a < b, a == b); }
     else { m.flags_valid = 1; /* operands outside the integer-valued model: outcome arbitrary */ }
     m.x87--; return;
   }
